@@ -24,10 +24,11 @@ namespace Amgcl.IO
 def two64 : Nat := 18446744073709551616
 def two63 : Nat := 9223372036854775808
 
-/-- little-endian value of a byte block -/
+/-- little-endian value of a byte block (a list element is taken modulo 256, so that the function is a byte
+decoder on every `List Nat`) -/
 def leVal : Bytes → Nat
   | [] => 0
-  | b :: t => b + 256 * leVal t
+  | b :: t => b % 256 + 256 * leVal t
 /-- the 8 little-endian bytes of `x mod 2^64` -/
 def enc64 (x : Nat) : Bytes := (List.range 8).map (fun k => x / 256 ^ k % 256)
 /-- `size_t → ptrdiff_t` -/
